@@ -44,6 +44,88 @@ def _fields(h):
     return [h.ccsds_version, int(h.packet_type), int(h.sec_header_flag), h.apid, int(h.seq_flags), h.seq_count, h.data_len]
 
 
+
+def _b(s):
+    return bool(s) if s in (0, 1) else s
+
+
+def _row(fn):
+    """one observation row of a history: [0] + values, or [1, exception class]"""
+    from harness import core
+    try:
+        return [0] + [int(x) for x in fn()]
+    except BaseException as e:  # noqa
+        if isinstance(e, (KeyboardInterrupt, SystemExit, MemoryError)):
+            raise
+        return [1, core.canon_code(core.classify_exception(e))]
+
+
+def _view(h):
+    return _fields(h) + [h.packet_len, h.packet_id.raw(), h.packet_seq_control.raw(), h.header_len]
+
+
+def _fresh_hdr(h):
+    return sp.SpacePacketHeader(packet_type=h.packet_type, apid=h.apid, seq_count=h.seq_count, data_len=h.data_len,
+                                sec_header_flag=h.sec_header_flag, seq_flags=h.seq_flags, ccsds_version=h.ccsds_version)
+
+
+def _eq_fresh(h):
+    fresh = _fresh_hdr(h)
+    e1 = h == fresh; e2 = fresh == h
+    comp = sp.SpacePacketHeader.from_composite_fields(h.packet_id, h.packet_seq_control, h.data_len, h.ccsds_version)
+    e3 = h == comp; e4 = comp == h
+    return [e1, e2, e3, e4]
+
+
+def _set_hdr(h, k, v):
+    """the public setters of SpacePacketHeader, and the same assignments through the public sub-objects"""
+    if k == 0:
+        h.apid = v
+    elif k == 1:
+        h.seq_count = v
+    elif k == 2:
+        h.seq_flags = _flags(v)
+    elif k == 3:
+        h.packet_type = _ptype(v)
+    elif k == 4:
+        h.sec_header_flag = _b(v)
+    elif k == 5:
+        h.data_len = v
+    elif k == 6:
+        h.packet_id.apid = v
+    elif k == 7:
+        h.packet_seq_control.seq_count = v
+    elif k == 11:
+        h.packet_id.ptype = _ptype(v)
+    elif k == 12:
+        h.packet_id.sec_header_flag = _b(v)
+    elif k == 13:
+        h.packet_seq_control.seq_flags = _flags(v)
+
+
+def _hdr_op(h, o):
+    k = o[0] if o else 9
+    _set_hdr(h, k, o[1] if len(o) > 1 else 0)
+    if k == 8:
+        return _row(h.pack)
+    if k == 10:
+        return _row(lambda: _eq_fresh(h))
+    return _view(h)
+
+
+def _part(l, as_bytearray):
+    if not (l and l[0]):
+        return None
+    return bytearray(l[1:]) if as_bytearray else bytes(l[1:])
+
+
+def _spkt_eq_fresh(p):
+    q = sp.SpacePacket(_fresh_hdr(p.sp_header), None if p.sec_header is None else bytes(p.sec_header),
+                       None if p.user_data is None else bytearray(p.user_data))
+    e1 = p == q; e2 = q == p
+    return [e1, e2, p == q, q == p]
+
+
 def impl(op, a):
     if op == 100:
         h = _hdr(a[0]); return [_fields(h), [h.packet_len]]
@@ -66,7 +148,7 @@ def impl(op, a):
     if op == 109:
         f, c = a[0]; return [[sp.get_sp_psc_raw(_flags(f), c)]]
     if op == 110:
-        return [[sp.get_apid_from_raw_space_packet(bytes(a[0]))]]
+        return [[sp.get_apid_from_raw_space_packet(bytearray(a[0]) if len(a[0]) % 2 else bytes(a[0]))]]
     if op == 111:
         return [[sp.get_total_space_packet_len_from_len_field(a[0][0])]]
     if op == 112:
@@ -76,6 +158,94 @@ def impl(op, a):
         return [list(sp.SpacePacket(h, sec, ud).pack())]
     if op == 113:
         return [list(sp.SpacePacketHeader.unpack(bytes(a[0])).pack())]
+    if op == 114:
+        h = _hdr(a[0])
+        sec = _part(a[1], a[3][0]); ud = _part(a[2], a[3][1])
+        keep = [(x, bytes(x)) for x in (sec, ud) if x is not None]
+        p = sp.SpacePacket(h, sec, ud)
+        b1 = p.pack(); c1 = bytes(b1)
+        b1.extend(b"\x00\x01")           # the caller edits what it got back
+        b2 = p.pack()
+        return [list(c1), list(b2), [int(all(bytes(x) == y for x, y in keep))]]
+    if op == 120:
+        l = a[0]; kind = a[1][0]
+        t, ap, c, d, s, f, v = l
+        pid = psc = None
+        if kind == 1:
+            pid = sp.PacketId(_ptype(t), _b(s), ap); psc = sp.PacketSeqCtrl(_flags(f), c)
+            if v == 0:
+                h = sp.SpacePacketHeader.from_composite_fields(pid, psc, d)
+            else:
+                h = sp.SpacePacketHeader.from_composite_fields(pid, psc, d, v)
+        elif kind == 2:
+            h = sp.SpacePacketHeader.unpack(bytearray(_hdr(l).pack()) + b"\xa5\x5a")
+        else:
+            h = _hdr(l)
+        rows = [_hdr_op(h, o) for o in a[2:]]
+        if pid is not None:
+            rows.append([int(pid.ptype), int(pid.sec_header_flag), pid.apid, int(psc.seq_flags), psc.seq_count])
+        else:
+            rows.append([t, s, ap, f, c])
+        return rows
+    if op == 121:
+        buf = bytearray(a[0])
+        h = sp.SpacePacketHeader.unpack(buf)
+        v1 = _view(h)
+        for i in range(len(buf)):
+            buf[i] ^= 0xFF
+        return [v1, _row(h.pack), _view(h)]
+    if op == 122:
+        x = sp.SpacePacketHeader.unpack(bytes(a[0]))
+        vx = _view(x)
+        y = sp.SpacePacketHeader.unpack(bytearray(a[1]))
+        return [vx, _view(y), _view(x), _row(lambda: [x == y, y == x, x == y, y == x])]
+    if op == 123:
+        h = _hdr(a[0])
+        sec = _part(a[1], a[3][0]); ud = _part(a[2], a[3][1])
+        keep = [(x, bytes(x)) for x in (sec, ud) if x is not None]
+        p = sp.SpacePacket(h, sec, ud)
+        rows = []
+        for o in a[4:]:
+            k = o[0] if o else 9
+            if 20 <= k < 30:
+                _set_hdr(p.sp_header, k - 20, o[1] if len(o) > 1 else 0)
+            elif k in (30, 31):
+                x = _part(o[1:], len(o) % 2)
+                if x is not None:
+                    keep.append((x, bytes(x)))
+                if k == 30:
+                    p.sec_header = x
+                else:
+                    p.user_data = x
+            if k == 32:
+                rows.append(_row(p.pack))
+            elif k == 33:
+                rows.append(_row(lambda: _spkt_eq_fresh(p)))
+            else:
+                rows.append([p.apid, p.seq_count, int(p.sec_header_flag), p.sp_header.data_len])
+        rows.append([int(all(bytes(x) == y for x, y in keep))])
+        return rows
+    if op in (124, 125):
+        k0, m, o = a[0], a[1], a[2]
+        if op == 124:
+            p = sp.PacketId.from_raw(k0[1]) if k0[0] == 1 else sp.PacketId.empty() if k0[0] == 2 else \
+                sp.PacketId(_ptype(k0[1]), _b(k0[2]), k0[3])
+            if m[0]:
+                p.ptype = _ptype(m[1])
+            if m[2]:
+                p.sec_header_flag = _b(m[3])
+            if m[4]:
+                p.apid = m[5]
+            q = sp.PacketId(_ptype(o[0]), _b(o[1]), o[2])
+        else:
+            p = sp.PacketSeqCtrl.from_raw(k0[1]) if k0[0] == 1 else sp.PacketSeqCtrl.empty() if k0[0] == 2 else \
+                sp.PacketSeqCtrl(_flags(k0[1]), k0[2])
+            if m[0]:
+                p.seq_flags = _flags(m[1])
+            if m[2]:
+                p.seq_count = m[3]
+            q = sp.PacketSeqCtrl(_flags(o[0]), o[1])
+        return [[p.raw(), int(p == q), int(q == p), int(p == 17)]]
     raise RuntimeError("bad op")
 
 
@@ -175,6 +345,158 @@ def streams(tier, rng):
     for _ in range(20000 if big else 3000):
         cases.append((102, [[rng.randrange(256) for _ in range(rng.randrange(6, 20))]]))
     yield "unpack_random", "exact", cases
+    yield from hist_streams(tier, rng)
+
+
+# ------------------------------------------------------------------ histories, object re-use, sizes
+HDR_RANGES = {0: 2048, 6: 2048, 1: 16384, 7: 16384, 2: 4, 13: 4, 3: 2, 11: 2, 4: 2, 12: 2, 5: 65536}
+HDR_BND = {2048: BND["apid"], 16384: BND["count"], 65536: BND["dlen"], 4: [0, 1, 2, 3], 2: [0, 1]}
+HDR_BAD = {2048: [2048, 4095, 4096, -1, 2 ** 16], 16384: [16384, 32768, 65535, -1, 2 ** 16], 65536: [65536, -1, 2 ** 32],
+           4: [4, 7], 2: [2, 3]}
+FIELD_OF = {0: 1, 6: 1, 1: 2, 7: 2, 5: 3, 4: 4, 12: 4, 2: 5, 13: 5, 3: 0, 11: 0}   # position in the constructor arguments
+
+
+def rand_hdr_args(rng):
+    return [rng.randrange(2), rng.choice(BND["apid"]) if rng.random() < 0.4 else rng.randrange(2048),
+            rng.choice(BND["count"]) if rng.random() < 0.4 else rng.randrange(16384),
+            rng.choice(BND["dlen"]) if rng.random() < 0.4 else rng.randrange(65536), rng.randrange(2), rng.randrange(4),
+            rng.choice([0, 0, 7, rng.randrange(8)])]
+
+
+def rand_hdr_setter(rng, bad=0.12, setters=(0, 1, 2, 3, 4, 5, 6, 7, 11, 12, 13)):
+    k = rng.choice(setters)
+    m = HDR_RANGES[k]
+    r = rng.random()
+    if r < bad:
+        return [k, rng.choice(HDR_BAD[m])]
+    return [k, rng.choice(HDR_BND[m]) if r < 0.55 else rng.randrange(m)]
+
+
+def rand_hdr_ops(rng, n, bad=0.12):
+    ops, last = [], None
+    for _ in range(n):
+        r = rng.random()
+        if r < 0.5:
+            o = rand_hdr_setter(rng, bad)
+            if rng.random() < 0.1 and last is not None:
+                o = list(last)            # the same value assigned twice
+            last = o
+        elif r < 0.75:
+            o = [8]
+        elif r < 0.9:
+            o = [10]
+        else:
+            o = [9]
+        ops.append(o)
+    return ops
+
+
+def hist_streams(tier, rng):
+    big = tier == "thorough"
+    # 7. operation histories over one header object (up to 10 operations), all three construction paths
+    cases = []
+    for _ in range(20000 if big else 5000):
+        cases.append((120, [rand_hdr_args(rng), [rng.randrange(3)]] + rand_hdr_ops(rng, rng.randrange(1, 11))))
+    # three boundary values at once, each through either route, then every observer
+    for ap, c, d in itertools.product(BND["apid"][:7], BND["count"][:6], BND["dlen"][:8]):
+        ops = [[rng.choice([0, 6]), ap], [rng.choice([1, 7]), c], [5, d]]
+        rng.shuffle(ops)
+        cases.append((120, [rand_hdr_args(rng), [rng.randrange(3)]] + ops + [[8], [10], [9], [8]]))
+    yield "hdr_setter_histories", "exact", cases
+    # 8. every value of every setter (five assignments + pack per history), both routes
+    cases = []
+    for ks, m, step in (((0, 6), 2048, 1), ((1, 7), 16384, 1 if big else 3), ((5,), 65536, 1 if big else 11)):
+        vals = sorted(set(range(0, m, step)) | set(v for v in HDR_BND[m]) | set(range(m - 70, m)))
+        for k in ks:
+            for i in range(0, len(vals), 5):
+                ops = []
+                for v in vals[i:i + 5]:
+                    ops += [[k, v], [8]]
+                cases.append((120, [rand_hdr_args(rng), [rng.randrange(3)]] + ops))
+    for t, s_, f in itertools.product(range(2), range(2), range(4)):
+        for kt, ks_, kf in itertools.product((3, 11), (4, 12), (2, 13)):
+            cases.append((120, [rand_hdr_args(rng), [rng.randrange(3)], [kt, t], [ks_, s_], [kf, f], [8], [10], [9]]))
+    yield "exh_setter_values", "exact", cases
+    # 9. decoding from (long) bytearrays that are overwritten afterwards: every buffer length 6..1100,
+    #    4 KiB, 64 KiB; two headers decoded in a row (equal, differing in one bit, unrelated)
+    cases = []
+    for ln in list(range(0, 1101)) + [4095, 4096, 4097, 65535, 65536, 65542]:
+        cases.append((121, [[rng.randrange(256) for _ in range(6)] + [rng.choice([0, 0x80, 0xFF, rng.randrange(256)]) for _ in range(ln - 6)]
+                            if ln >= 6 else [rng.randrange(256) for _ in range(ln)]]))
+    for _ in range(3000 if big else 600):
+        x = [rng.randrange(256) for _ in range(6)]
+        r = rng.random()
+        if r < 0.3:
+            y = list(x)
+        elif r < 0.7:
+            y = list(x); i = rng.randrange(48); y[i // 8] ^= 1 << (i % 8)
+        else:
+            y = [rng.randrange(256) for _ in range(6)]
+        cases.append((122, [x + [rng.randrange(256) for _ in range(rng.randrange(3))], y + [0xFF] * rng.randrange(3)]))
+    x = [rng.randrange(256) for _ in range(6)]
+    for i in range(48):
+        y = list(x); y[i // 8] ^= 1 << (i % 8)
+        cases.append((122, [x, y]))
+    for ln in (6, 7, 255, 256, 257, 511, 512, 513, 1024, 4096, 65542):
+        cases.append((110, [[rng.randrange(256) for _ in range(ln)]]))
+    yield "hdr_bytearray_and_rows", "exact", cases
+    # 10. SpacePacket objects: parts given as bytes or bytearray, header edited through sp_header,
+    #     parts replaced, pack repeated, equality with an independently built packet
+    cases = []
+    for _ in range(6000 if big else 1200):
+        h = rand_hdr_args(rng)
+        sec = [rng.randrange(2)]; sec += [rng.randrange(256) for _ in range(rng.choice([0, 1, 4, 7]))] if sec[0] else []
+        ud = [rng.randrange(2)]; ud += [rng.randrange(256) for _ in range(rng.choice([0, 1, 2, 9, 30]))] if ud[0] else []
+        ops = []
+        for _ in range(rng.randrange(1, 11)):
+            r = rng.random()
+            if r < 0.3:
+                o = rand_hdr_setter(rng, 0.05, (0, 1, 2, 3, 4, 5, 6, 7))
+                o = [20 + o[0], o[1]]
+            elif r < 0.45:
+                o = [rng.choice([30, 31]), 1] + [rng.randrange(256) for _ in range(rng.choice([0, 1, 3, 8]))] if rng.random() < 0.8 \
+                    else [rng.choice([30, 31]), 0]
+            elif r < 0.8:
+                o = [32]
+            elif r < 0.92:
+                o = [33]
+            else:
+                o = [34]
+            ops.append(o)
+        cases.append((123, [h, sec, ud, [rng.randrange(2), rng.randrange(2)]] + ops))
+    yield "space_packet_histories", "exact", cases
+    # 11. SpacePacket.pack for every user-data length 0..1100 (bytes and bytearray), secondary headers around
+    #     the multiples of 256, 4 KiB / 64 KiB parts; packed twice
+    cases = []
+    around = sorted({m + d for m in (0, 256, 512, 768, 1024) for d in range(-8, 9) if m + d >= 0})
+    big_parts = [4095, 4096, 65535, 65536]
+    for n in list(range(0, 1101)) + big_parts:
+        h = rand_hdr_args(rng); h[4] = n % 2
+        fill = rng.choice([0, 0x80, 0xFF, None])
+        ud = [1] + [fill if fill is not None else rng.randrange(256) for _ in range(n)]
+        sec = [1] + [rng.randrange(256) for _ in range(rng.choice([0, 1, 7]))] if h[4] else [0]
+        cases.append((114, [h, sec, ud, [rng.randrange(2), n % 3 == 0]]))
+    for n in around + big_parts:
+        h = rand_hdr_args(rng); h[4] = 1
+        cases.append((114, [h, [1] + [rng.randrange(256) for _ in range(n)], [rng.randrange(2)] + [1, 2, 3][:rng.randrange(4)],
+                            [n % 2, rng.randrange(2)]]))
+    yield "exh_space_packet_sizes", "exact", cases
+    # 12. PacketId / PacketSeqCtrl objects: constructor, from_raw, empty(); attribute assignment; raw(); ==
+    cases = []
+    for _ in range(20000 if big else 3000):
+        kind = rng.randrange(3)
+        t, s_, ap = rng.randrange(2), rng.randrange(2), rng.choice(BND["apid"]) if rng.random() < 0.4 else rng.randrange(2048)
+        k0 = [0, t, s_, ap] if kind == 0 else [1, rng.randrange(8192)] if kind == 1 else [2]
+        m = [rng.randrange(2), rng.randrange(2), rng.randrange(2), rng.randrange(2), rng.randrange(2),
+             rng.choice(BND["apid"]) if rng.random() < 0.5 else rng.randrange(2048)]
+        o = [rng.randrange(2), rng.randrange(2), rng.choice([ap, m[5], 0, rng.randrange(2048)])]
+        cases.append((124, [k0, m, o]))
+        f, c = rng.randrange(4), rng.choice(BND["count"]) if rng.random() < 0.4 else rng.randrange(16384)
+        k0 = [0, f, c] if kind == 0 else [1, rng.randrange(65536)] if kind == 1 else [2]
+        m = [rng.randrange(2), rng.randrange(4), rng.randrange(2), rng.choice(BND["count"]) if rng.random() < 0.5 else rng.randrange(16384)]
+        o = [rng.randrange(4), rng.choice([c, m[3], 0, rng.randrange(16384)])]
+        cases.append((125, [k0, m, o]))
+    yield "packet_id_psc_objects", "exact", cases
 
 
 def in_range(l):
@@ -276,6 +598,59 @@ def oracle(case, ires, sres):
         if ires[1] != [a[0][0] + 7]:
             return ("C01/total_len", "%s -> %s" % (a[0], ires))
         return None
+    if op == 120:
+        return oracle_hdr_history(a, ires)
+    if op == 121:
+        b = a[0]
+        if len(b) < 6:
+            if not err or code not in (1, 2, 3):
+                return ("C01/SpacePacketHeader.unpack/short", "short input not refused with ValueError: %s" % (ires,))
+            return None
+        if err:
+            return ("C01/SpacePacketHeader.unpack/refuses", ">= 6 octets (bytearray of %d) refused: %s" % (len(b), ires))
+        v1, pk, v2 = ires[1:4]
+        if layout(*_vtsafcd(v1)) != b[:6] or v1[7:] != expected_view(v1[:7])[7:]:
+            return ("C01/SpacePacketHeader.unpack/fields", "decoded from a bytearray of %d octets: %s, octets %s" % (len(b), v1, b[:6]))
+        if pk != [0] + b[:6] or v2 != v1:
+            return ("C01/SpacePacketHeader.unpack/aliases-input",
+                    "the header decoded from a bytearray changed when the caller overwrote the buffer: before %s, after %s, pack %s" % (v1, v2, pk))
+        return None
+    if op == 122:
+        x, y = a
+        if len(x) < 6 or len(y) < 6 or err:
+            return None
+        vx, vy, vx2, eq = ires[1:5]
+        if layout(*_vtsafcd(vx)) != x[:6] or layout(*_vtsafcd(vy)) != y[:6]:
+            return ("C01/SpacePacketHeader.unpack/fields", "two headers in a row: %s -> %s, %s -> %s" % (x[:6], vx, y[:6], vy))
+        if vx2 != vx:
+            return ("C01/SpacePacketHeader.unpack/shared-state", "decoding %s changed the header decoded before from %s to %s" % (y[:6], vx, vx2))
+        same = int(x[:6] == y[:6])
+        if eq != [0, same, same, same, same]:
+            return ("C01/SpacePacketHeader.__eq__", "headers %s and %s: == answered %s" % (x[:6], y[:6], eq))
+        return None
+    if op in (114, 123):
+        return oracle_space_packet(op, a, ires, err, code)
+    if op in (124, 125):
+        k0, m, o = a
+        if err:
+            return ("C01/%s/valid-refused" % ("PacketId" if op == 124 else "PacketSeqCtrl"), "%s -> %s" % (a, ires))
+        if op == 124:
+            cur = [k0[1], k0[2], k0[3]] if k0[0] == 0 else [k0[1] // 4096 % 2, k0[1] // 2048 % 2, k0[1] % 2048] if k0[0] == 1 else [0, 0, 0]
+            for i in range(3):
+                if m[2 * i]:
+                    cur[i] = m[2 * i + 1]
+            mine = cur[0] * 4096 + cur[1] * 2048 + cur[2]; other = o[0] * 4096 + o[1] * 2048 + o[2]
+        else:
+            cur = [k0[1], k0[2]] if k0[0] == 0 else [k0[1] // 16384, k0[1] % 16384] if k0[0] == 1 else [0, 0]
+            for i in range(2):
+                if m[2 * i]:
+                    cur[i] = m[2 * i + 1]
+            mine = cur[0] * 16384 + cur[1]; other = o[0] * 16384 + o[1]
+        same = int(mine == other)
+        if ires[1] != [mine, same, same, 0]:
+            return ("C01/%s/raw-after-assignment" % ("PacketId" if op == 124 else "PacketSeqCtrl"),
+                    "%s: raw / == / == / ==17 answered %s, fields %s encode to %d, the other object to %d" % (a, ires[1], cur, mine, other))
+        return None
     if op == 112:
         h, sec, ud = a
         t, ap, c, d, s, f, v = h
@@ -295,6 +670,117 @@ def oracle(case, ires, sres):
     return None
 
 
+
+def _vtsafcd(view):
+    """(v, t, s, ap, f, c, d) of a view row"""
+    return tuple(view[:7])
+
+
+def expected_view(fields):
+    v, t, s, ap, f, c, d = fields
+    return [v, t, s, ap, f, c, d, d + 7, t * 4096 + s * 2048 + ap, f * 16384 + c, 6]
+
+
+def fields_valid(fl):
+    v, t, s, ap, f, c, d = fl
+    return 0 <= v < 8 and t in (0, 1) and s in (0, 1) and 0 <= ap < 2048 and 0 <= f < 4 and 0 <= c < 16384 and 0 <= d < 65536
+
+
+HDR_FIELD_POS = {0: 3, 6: 3, 1: 5, 7: 5, 2: 4, 13: 4, 3: 1, 11: 1, 4: 2, 12: 2, 5: 6}    # setter -> position in (v,t,s,ap,f,c,d)
+
+
+def oracle_hdr_history(a, ires):
+    """after any sequence of setter calls whose final values are in range the object reports those values,
+    packs to the six octets the standard prescribes for them, reports data length + 7 and equals a freshly
+    constructed header with the same values; the caller's PacketId / PacketSeqCtrl are untouched"""
+    l, kind = a[0], a[1][0]
+    t, ap, c, d, s, f, v = l
+    cur = [v, t, s, ap, f, c, d]
+    if not fields_valid(cur):
+        return None
+    if ires[0] != [0]:
+        return ("C01/SpacePacketHeader/valid-refused", "construction path %d refused valid fields %s: %s" % (kind, l, ires))
+    rows = ires[1:]
+    for n, (o, row) in enumerate(zip(a[2:], rows)):
+        k = o[0] if o else 9
+        if k in HDR_FIELD_POS:
+            cur[HDR_FIELD_POS[k]] = o[1]
+        if not fields_valid(cur):
+            continue
+        what = "path %d, start %s, operations %s" % (kind, l, a[2:2 + n + 1])
+        if k == 8:
+            if row != [0] + layout(*cur):
+                return ("C01/SpacePacketHeader.setters/pack-layout", "%s: pack() = %s, the standard says %s for %s" % (what, row, layout(*cur), cur))
+        elif k == 10:
+            if row != [0, 1, 1, 1, 1]:
+                return ("C01/SpacePacketHeader.__eq__/after-setters",
+                        "%s: the object does not equal a freshly built header with its own values %s: %s" % (what, cur, row))
+        elif row != expected_view(cur):
+            return ("C01/SpacePacketHeader.setters/fields", "%s: object reports %s, expected %s" % (what, row, expected_view(cur)))
+    if rows and rows[-1] != [t, s, ap, f, c]:
+        return ("C01/SpacePacketHeader.from_composite_fields/caller-object-modified",
+                "the PacketId / PacketSeqCtrl passed in were changed by operations on the header: %s -> %s" % ([t, s, ap, f, c], rows[-1]))
+    return None
+
+
+def sp_expected(cur, sec, ud):
+    hb = layout(*cur)
+    if cur[2]:
+        return None if sec is None else hb + sec + (ud or [])
+    return None if ud is None else hb + ud
+
+
+def oracle_space_packet(op, a, ires, err, code):
+    t, ap, c, d, s, f, v = a[0]
+    cur = [v, t, s, ap, f, c, d]
+    sec = a[1][1:] if a[1] and a[1][0] else None
+    ud = a[2][1:] if a[2] and a[2][0] else None
+    if not fields_valid(cur):
+        return None
+    if op == 114:
+        exp = sp_expected(cur, sec, ud)
+        if exp is None:
+            if not err or code not in (1, 2, 3):
+                return ("C01/SpacePacket.pack/mandatory", "missing mandatory part accepted: %s" % (ires[:1],))
+            return None
+        if err or ires[1] != exp or ires[2] != exp:
+            return ("C01/SpacePacket.pack/layout", "header %s, %s secondary header octets, %s user data octets: packed %d / %d octets, expected %d (first difference at %s)" % (
+                a[0], None if sec is None else len(sec), None if ud is None else len(ud), len(ires[1]) if not err else -1,
+                len(ires[2]) if not err else -1, len(exp), next((i for i, (x, y) in enumerate(zip(ires[1], exp)) if x != y), None) if not err else None))
+        if ires[3] != [1]:
+            return ("C01/SpacePacket.pack/caller-buffer-modified", "pack() changed the caller's secondary header / user data buffer")
+        return None
+    if err:
+        return ("C01/SpacePacket/valid-refused", "%s -> %s" % (a[:3], ires))
+    rows = ires[1:]
+    for n, (o, row) in enumerate(zip(a[4:], rows)):
+        k = o[0] if o else 9
+        if 20 <= k < 30 and (k - 20) in HDR_FIELD_POS:
+            cur[HDR_FIELD_POS[k - 20]] = o[1]
+        elif k == 30:
+            sec = o[2:] if o[1] else None
+        elif k == 31:
+            ud = o[2:] if o[1] else None
+        if not fields_valid(cur):
+            continue
+        what = "start %s, operations %s" % (a[:3], a[4:4 + n + 1])
+        if k == 32:
+            exp = sp_expected(cur, sec, ud)
+            if exp is None:
+                if row[0] != 1 or row[1] not in (1, 2, 3):
+                    return ("C01/SpacePacket.pack/mandatory", "%s: missing mandatory part accepted: %s" % (what, row))
+            elif row != [0] + exp:
+                return ("C01/SpacePacket.pack/layout", "%s: pack() = %s, expected %s" % (what, row, exp))
+        elif k == 33:
+            if row != [0, 1, 1, 1, 1]:
+                return ("C01/SpacePacket.__eq__", "%s: the packet does not equal an independently built one with the same parts: %s" % (what, row))
+        elif row != [cur[3], cur[5], cur[2], cur[6]]:
+            return ("C01/SpacePacket/fields", "%s: packet reports %s, header values %s" % (what, row, cur))
+    if rows and rows[-1] != [1]:
+        return ("C01/SpacePacket.pack/caller-buffer-modified", "a caller-owned secondary header / user data buffer was changed: %s" % (a[:4],))
+    return None
+
+
 def neighbours(case):
     op, a = case
     out = []
@@ -310,6 +796,14 @@ def neighbours(case):
         for i in range(len(a[0])):
             for dlt in (-1, 1):
                 l = list(a[0]); l[i] += dlt; out.append((op, [l]))
+    if op in (120, 123):
+        first = 2 if op == 120 else 4
+        for i in range(first, len(a)):            # shorter histories, each with a final pack / compare / observe
+            out.append((op, a[:i] + a[i + 1:]))
+        tail = [[8], [10], [9]] if op == 120 else [[32], [33], [34]]
+        out.append((op, a + tail))
+        for k in range(first, len(a) + 1):
+            out.append((op, a[:k] + tail))
     return out
 
 
